@@ -9,28 +9,36 @@ BOUNDS = {
              'floor, trunc, round, rint, lrint, llrint, copysign, signbit, fma (dispatch on is_constant_evaluated(): constant-evaluation path vs run-time path), '
              'signbit additionally in the gcc configuration of signbit.hpp (GCFG=1: __builtin_signbit at run time); integral overloads floor/trunc/round/rint/lrint/llrint/ceil '
              'for every int and floor/trunc/round/rint/ceil for every long long; single-path functions ceil, fabs, fmin, fmax, fdim, isnan, isinf, isfinite (same code '
-             'at compile time and run time). Every query twice: functional (paths agree bit for bit, NaN == NaN) and UB build (signed overflow, shifts, division by zero, '
-             'float-cast-overflow ... on both paths for every argument). double: every bit pattern for the unary functions and signbit (both configurations)',
+             'at compile time and run time). Every query twice: (a) functional: the two paths agree bit for bit (NaN == NaN); (b) "constant evaluation cannot fail" '
+             '(CEQ=1): UB build (signed overflow, shifts, division by zero, float-cast-overflow, ...) of both paths, and the constant-evaluation path compiled with strict '
+             'floating-point semantics so that every floating-point operation it executes is checked against what gcc/clang refuse in a constant expression '
+             '(NaN result, invalid operation, division by zero, overflow, out-of-range conversion). double: every bit pattern for the unary functions and signbit (both configurations)',
     'thorough': 'as quick plus double for every entry (2^128 pairs for the binary functions, 2^192 triples for fma)',
 }
 ASSUMPTIONS = [
     'C13: the constant-evaluation branch is reached by `#define __builtin_is_constant_evaluated() true` in kernel.cpp before tetl is included (DESIGN.md C13): '
     'the code a constant expression executes is run by the solver. Trusted: that the compilers\' constant evaluators implement the abstract machine with IEEE '
-    'round-to-nearest arithmetic (the *_huge / rint_cast_range findings were additionally confirmed with real `constexpr` variables under g++ 12 and clang++ 16)',
+    'round-to-nearest arithmetic. Side check on every run (spec.validate(), not the deciding step): smoke.cpp compares constexpr tables computed by g++ 12 and clang++ 16 '
+    '(-O0 and -O2, float and double, ~30000 boundary rows each) with the macro-forced branch, and re-compiles the expressions whose constant evaluation is recorded as failing',
     'C13: run-time path = the compiler builtins as clang lowers them (llvm.floor/trunc/round/rint/lrint/llrint/copysign/fma), modelled by CBMC 6.11\'s IEEE float theory and '
     'libm models (floatbv_fma is fused: single rounding); family cmath_exact (C16) checks these models against glibc',
     'C13: results compared bit for bit (the sign of a zero result counts); two NaN results are equal whatever their sign/payload',
     'C13: default rounding mode (round to nearest even) at run time - rint/lrint/llrint are not exercised under other modes; floating-point exceptions/errno not observed',
     'C13: lrint/llrint: arguments whose rounded value does not fit long (NaN, inf, x < -2^63, x >= 2^63) are outside the documented domain (ISO C: unspecified result)',
-    'C13: fma constant-evaluation path x * y + z is translated unfused (what the constant evaluators of gcc and clang compute; confirmed natively)',
-    'C13: the libm models std::trunc/std::rint/std::fma appear in the driver only inside VF_KNOWN region predicates (where do the two paths legitimately - as recorded '
-    'findings - differ), never as the expected value',
+    'C13: fma constant-evaluation path x * y + z is translated unfused (what the constant evaluators of gcc and clang compute; confirmed natively and by smoke.cpp)',
+    'C13 (CEQ=1 queries): "constant evaluation succeeds" = no sanitizer-visible UB on either path and none of the LL_CEFP_* obligations of engine/ll_prelude.h fails on the '
+    'constant-evaluation path: rules measured with g++ 12 / clang++ 16 ([expr.pre]/4): x/0, inf-inf, 0*inf, 0/0 and out-of-range float->integer conversions are rejected by both, '
+    'every NaN result (also from a NaN operand) by clang, overflow to infinity by gcc; comparisons, negation and NaN/inf operands as such are accepted. '
+    'Arguments with a range or domain error are outside the documented domain and excluded from these queries only (not from the functional ones): fdim with an overflowing '
+    'difference of finite arguments; fma with 0 * inf, inf - inf or an overflowing product / sum of finite values',
+    'C13: the libm models std::trunc/std::rint/std::fma and plain float arithmetic appear in the driver only inside VF_KNOWN region / domain predicates, never as the expected value',
     'C13: ceil, fabs, fmin, fmax, fdim, isnan, isinf, isfinite have one code path in tetl (gcem or a constexpr-capable builtin): the functional query is the identity, '
-    'the UB build decides that constant evaluation cannot fail. Whether that single path is the right function is C16',
+    'the CEQ=1 query decides that constant evaluation cannot fail. Whether that single path is the right function is C16',
     'C13: long double overloads are outside the claim (translator has no x86_fp80); the f/l-suffixed names forward to the same detail functions (C16 checks floorf == floor etc.); '
     'the 17 transcendental functions (sin, exp, pow, ...) are outside the claim (DESIGN.md: results not exactly specified)',
     'C13: GCFG selects how _cmath/signbit.hpp sees the compiler (TETL_COMPILER_CLANG defined or not) independent of the compiler that builds the harness, so the '
     'solver build (clang) and the native replay (g++) run the same branch',
+    'C02 (this family): the UB build of the same queries without the strict floating-point obligations (those concern constant evaluation only)',
 ]
 
 DISPATCH1 = ['floor', 'trunc', 'round', 'rint', 'lrint', 'llrint', 'signbit']
@@ -40,11 +48,13 @@ SINGLE2 = ['fmin', 'fmax', 'fdim']
 
 
 def queries(tier, prop='C13'):
+    if prop == 'C13':
+        validate()
     out = []
     modes = [(True, True)] if prop == 'C02' else [(False, False), (True, True)]
 
     def add(entry, dbl, g, ub, nofunc, budget=120, solver=None):
-        cfg = {'FT': 'double' if dbl else 'float', 'DBL': int(dbl), 'GCFG': g, 'UBQ': int(ub)}
+        cfg = {'FT': 'double' if dbl else 'float', 'DBL': int(dbl), 'GCFG': g, 'UBQ': int(ub), 'CEQ': int(ub and prop == 'C13')}
         out.append(dict(entry='q_' + entry, cfg=cfg, unwind=4, solver=solver or ['cadical', 'kissat'], budget=budget, ub=ub, nofunc=nofunc))
 
     for ub, nofunc in modes:
@@ -56,7 +66,88 @@ def queries(tier, prop='C13'):
             if full:
                 for e in DISPATCH2 + SINGLE2:
                     add(e, dbl, 0, ub, nofunc)
-                add('fma', dbl, 0, ub, nofunc, budget=300 if not dbl else 900)
-        add('int_overloads', False, 0, ub, nofunc)
-        add('ll_overloads', False, 0, ub, nofunc)
+                add('fma', dbl, 0, ub, nofunc, budget=300 if not dbl else 900, solver=['cvc5', 'kissat'])   # SMT route: the region / domain predicates repeat the kernel's products, cvc5 merges the identical terms
+        for fn in ('floor', 'trunc', 'round', 'rint', 'lrint', 'llrint', 'ceil'):
+            add(fn + '_i', False, 0, ub, nofunc)
+        for fn in ('floor', 'trunc', 'round', 'rint', 'ceil'):
+            add(fn + '_l', False, 0, ub, nofunc)
     return out
+
+
+# ---------------------------------------------------------------------------------------------------------------------------------
+# Side checks with the REAL constant evaluators of g++ and clang++ (DESIGN.md C13 "trusted ... sanity side-check"; not the deciding step)
+import concurrent.futures as _cf
+import os as _os
+import shutil as _shutil
+import subprocess as _sp
+import tempfile as _tempfile
+
+_HERE = _os.path.dirname(_os.path.abspath(__file__))
+_ENGINE = _os.path.join(_os.path.dirname(_os.path.dirname(_HERE)), 'engine')
+_REPO = _os.environ.get('VF_REPO', '/repo')
+# expressions whose constant evaluation must FAIL while the finding is open (compilers that reject it): native confirmation of the
+# findings that are compile errors rather than wrong values
+PROBES = [
+    ('C13_floor_huge', 'etl::floor(1e30F)', ('g++', 'clang++-16')), ('C13_trunc_huge', 'etl::trunc(-1e30)', ('g++', 'clang++-16')),
+    ('C13_round_huge', 'etl::round(1e19F)', ('g++', 'clang++-16')), ('C13_ceil_huge', 'etl::ceil(1e30F)', ('g++', 'clang++-16')),
+    ('C13_rint_cast_range', 'etl::rint(__builtin_inff())', ('g++', 'clang++-16')), ('C13_rint_cast_range', 'etl::rint(__builtin_nanf(""))', ('g++', 'clang++-16')),
+    ('C13_fabs_nan_clang', 'etl::fabs(__builtin_nanf(""))', ('clang++-16',)), ('C13_fdim_nan_clang', 'etl::fdim(__builtin_nanf(""), 1.0F)', ('clang++-16',)),
+    ('C13_fdim_inf_inf', 'etl::fdim(__builtin_inff(), __builtin_inff())', ('g++', 'clang++-16')), ('C13_fma_nan_clang', 'etl::fma(__builtin_nanf(""), 1.0F, 1.0F)', ('clang++-16',)),
+]
+_validated = [False]
+
+
+def _run(cmd, timeout=300):
+    try:
+        r = _sp.run(cmd, capture_output=True, text=True, timeout=timeout)
+        return r.returncode, r.stdout + r.stderr
+    except _sp.TimeoutExpired:
+        return 124, 'timeout'
+
+
+def validate():
+    """(1) smoke.cpp: constexpr tables computed by the compiler == the macro-forced branch of kernel.cpp on a boundary-value table
+    (g++ and clang++-16, -O0 and -O2, float and double); a mismatch is an error of the harness technique -> RuntimeError.
+    (2) PROBES: the compile-time failures recorded as findings still are compile errors (informational)."""
+    if _validated[0] or _os.environ.get('C13_SKIP_SMOKE'):
+        return
+    _validated[0] = True
+    d = _tempfile.mkdtemp(prefix='c13_smoke_')
+    inc = ['-std=c++20', '-w', '-I' + _os.path.join(_REPO, 'include'), '-I' + _ENGINE, '-I' + _HERE]
+    try:
+        def smoke(job):
+            cc, opt, dbl = job
+            exe = _os.path.join(d, 'smoke_%s_%s_%d' % (cc.replace('+', 'x'), opt[1:], dbl))
+            rc, o = _run([cc] + inc + [opt, '-ffp-contract=off', '-DFT=' + ('double' if dbl else 'float'), '-DDBL=%d' % dbl,
+                                       _os.path.join(_HERE, 'smoke.cpp'), _os.path.join(_HERE, 'kernel.cpp'), '-o', exe])
+            if rc != 0:
+                return job, None, 'does not compile: ' + o[-1200:]
+            rc, o = _run([exe], timeout=120)
+            return job, rc == 0, o.strip().splitlines()[-1] if o.strip() else ''
+
+        def probe(job):
+            fid, expr, ccs = job
+            res = []
+            for cc in ccs:
+                src = _os.path.join(d, 'probe_%d_%s.cpp' % (abs(hash((expr, cc))), cc.replace('+', 'x')))
+                open(src, 'w').write('#include <etl/cmath.hpp>\nconstexpr auto v = %s;\nint main() { return v != v; }\n' % expr)
+                rc, o = _run([cc] + inc + ['-fsyntax-only', src])
+                res.append((cc, rc != 0))
+            return fid, expr, res
+        jobs = [(cc, opt, dbl) for cc in ('g++', 'clang++-16') for opt in ('-O0', '-O2') for dbl in (0, 1)]
+        with _cf.ThreadPoolExecutor(int(_os.environ.get('VF_JOBS', '4'))) as ex:
+            sm = list(ex.map(smoke, jobs))
+            pr = list(ex.map(probe, PROBES))
+        bad = [(j, msg) for j, ok, msg in sm if not ok]
+        if bad:
+            raise RuntimeError('ce_fp: constexpr smoke table disagrees with the macro-forced constant-evaluation branch: %s' % bad[:3])
+        rows = sum(int(msg.split()[2]) for j, ok, msg in sm if msg.startswith('ce_fp smoke:'))
+        rej = sum(1 for fid, expr, res in pr for cc, r in res if r)
+        tot = sum(len(res) for fid, expr, res in pr)
+        print('[ce_fp] constexpr smoke tables (g++/clang++-16, -O0/-O2, float/double): %d rows, 0 mismatches; %d/%d recorded compile-time failures reproduce' % (rows, rej, tot), flush=True)
+        for fid, expr, res in pr:
+            for cc, r in res:
+                if not r:
+                    print('[ce_fp] NOTE: `constexpr auto v = %s;` now compiles with %s (finding %s no longer reproduces there)' % (expr, cc, fid), flush=True)
+    finally:
+        _shutil.rmtree(d, ignore_errors=True)
